@@ -49,6 +49,9 @@ HTTP_LIKE = ('CONNECT', 'DELETE', 'GET', 'HEAD', 'OPTIONS', 'PATCH', 'POST', 'PU
              'COPY', 'LOCK', 'MKCOL', 'MOVE', 'PROPFIND', 'PROPPATCH', 'REPORT', 'UNCHECKIN', 'UNLOCK', 'UPDATE')
 
 
+NONE = [-1]          # spec/Dispatch.tla: the value of a named group that did not take part (Python: None)
+
+
 def text(cps):
     return ''.join(map(chr, cps))
 
@@ -82,6 +85,10 @@ def sink_regex(pat):
             out.append('(' + re.escape(t) + ')?')
         elif k == 'optrest':
             out.append(r'(/.*)?$')
+        elif k in ('optndig', 'optnseg', 'optcdig', 'optcseg'):
+            lit, name = t.split('|')
+            out.append('(%s%s(?P<%s>%s))?' % ('?:' if k[3] == 'n' else '', re.escape(lit), name,
+                                              r'\d+' if k.endswith('dig') else '[^/]+'))
         else:
             raise MachineryError('unknown sink token %r' % (tok,))
     return ''.join(out)
@@ -177,13 +184,14 @@ class StaticDirs:
 class Built:
     """A real app assembled through the public API from a list of spec-level assembly calls."""
 
-    def __init__(self, asgi, sbs, dirs, act=None, **app_kw):
+    def __init__(self, asgi, sbs, dirs, act=None, compiled=False, **app_kw):
         import falcon
         import falcon.asgi
         self.asgi = asgi
         self.log = []
         self.dirs = dirs
         self.act = act
+        self.compiled = compiled   # sink prefixes handed to add_sink: 0 as strings, 1 precompiled, 2 every other one
         self.statics = []          # (id, prefix text)
         self.app = (falcon.asgi.App if asgi else falcon.App)(sink_before_static_route=bool(sbs), **app_kw)
 
@@ -195,10 +203,11 @@ class Built:
                 kw = {'suffix': c['sfx']} if c['sfx'] else {}
                 self.app.add_route(template_str(c['tmpl']), res, **kw)
             elif c['op'] == 'sink':
-                self.app.add_sink(make_sink(c['id'], self.asgi, self.log, self.act), sink_regex(c['pat']))
+                rx = sink_regex(c['pat'])
+                self.app.add_sink(make_sink(c['id'], self.asgi, self.log, self.act), re.compile(rx) if (self.compiled == 1 or (self.compiled == 2 and c['id'] % 2 == 0)) else rx)
             elif c['op'] == 'static':
                 kw = {'fallback_filename': '__fallback'} if c['fb'] else {}
-                self.app.add_static_route(text(c['prefix']), self.dirs.dir(c['id']), **kw)
+                self.app.add_static_route(text(c['prefix']) + ('/' if c.get('sl') else ''), self.dirs.dir(c['id']), **kw)
                 self.statics.append((c['id'], text(c['prefix'])))
             else:
                 raise MachineryError('unknown assembly call %r' % (c,))
@@ -225,10 +234,10 @@ def observe(res, log):
     if log:
         who, i, m, s, kw = log[0]
         o.update(who=who, id=i, meth=m, sfx=s)
-        if all(isinstance(k, str) and isinstance(v, str) for k, v in kw.items()):
+        if all(isinstance(k, str) and (v is None or isinstance(v, str)) for k, v in kw.items()):
             o['kw'] = kw
         else:
-            o['problem'] = o['problem'] or 'keyword arguments are not strings: %r' % (kw,)
+            o['problem'] = o['problem'] or 'keyword arguments are neither strings nor None: %r' % (kw,)
     elif res.status == 200 and res.header('accept-ranges') is not None:
         o['who'] = 'static'
         try:
@@ -283,7 +292,7 @@ ROW = ('m', 'p', 'kind', 'status', 'who', 'id', 'sfx', 'kw', 'hasAllow', 'allow'
 def expected_of(row):
     e = dict(zip(ROW, row))
     e['p'] = text(e['p'])
-    e['kw'] = {text(x['n']): text(x['v']) for x in e['kw']}
+    e['kw'] = {text(x['n']): (None if x['v'] == NONE else text(x['v'])) for x in e['kw']}
     e['allow'] = sorted(e['allow'])
     return e
 
@@ -298,8 +307,12 @@ def compare(e, o):
     if o['status'] != e['status']:
         return ('D:badmethod' if e['kind'] == 'BadMethod' else 'P:status'), \
             'expected status %s (%s), observed %s' % (e['status'], e['kind'], o['status'])
-    if o['kw'] != e['kw']:
+    if set(o['kw']) != set(e['kw']):
         return 'P:kwargs', 'expected keyword arguments %r, observed %r' % (e['kw'], o['kw'])
+    if o['kw'] != e['kw']:
+        none_only = all(e['kw'][k] is None for k in e['kw'] if e['kw'][k] != o['kw'][k])
+        return ('D:kwargs-none' if none_only else 'P:kwargs'), \
+            'expected keyword arguments %r, observed %r' % (e['kw'], o['kw'])
     if o['hasAllow'] != e['hasAllow'] or o['allow'] != e['allow']:
         if e['kind'] in ('NotAllowed', 'AutoOptions') or o['hasAllow']:
             return 'P:allow', 'expected Allow %r, observed %r' % (e['allow'] if e['hasAllow'] else None,
@@ -321,7 +334,8 @@ def replay_config(ctx, cfg, stacks, dirs, sample=None):
     n = 0
     hd = digest(h)
     for asgi in stacks:
-        b = Built(asgi, sbs, dirs)
+        compiled = (int(hd, 16) + asgi) % 3
+        b = Built(asgi, sbs, dirs, compiled=compiled)
         bad = False
         for c in h:
             ok, exn = b.call(c)
@@ -336,7 +350,7 @@ def replay_config(ctx, cfg, stacks, dirs, sample=None):
         kinds = {c['op'] for c in h if c['ok']}
         for e, o in zip(rows, obs):
             n += 1
-            case = {'h': h, 'sbs': sbs, 'asgi': asgi, 'm': e['m'], 'p': e['p'], 'expected': e}
+            case = {'h': h, 'sbs': sbs, 'asgi': asgi, 'compiled': compiled, 'm': e['m'], 'p': e['p'], 'expected': e}
             ctx.case(case, nontrivial=nontrivial(h, e, len(kinds)), key=(hd, sbs, asgi, e['m'], e['p']))
             d = compare(e, o)
             if d:
@@ -362,7 +376,8 @@ def describe(h):
         elif c['op'] == 'sink':
             out.append('add_sink(sink%d, %r)' % (c['id'], sink_regex(c['pat'])))
         elif c['op'] == 'static':
-            out.append('add_static_route(%r, dir%d%s)' % (text(c['prefix']), c['id'], ', fallback' if c['fb'] else ''))
+            out.append('add_static_route(%r, dir%d%s)' % (text(c['prefix']) + ('/' if c.get('sl') else ''), c['id'],
+                                                          ', fallback' if c['fb'] else ''))
     return '; '.join(out) or '(empty app)'
 
 
@@ -429,13 +444,15 @@ def leg_a(ctx, dirs):
         replayed += replay_config(ctx, b, (False, True), dirs)
     ctx.progress('leg A (method subsets): %d configurations, %d requests replayed' % (len(cfgs), replayed))
     ncfg = len(cfgs)
-    for cfg in ctx.pick(['MC_DispatchA1.cfg', 'MC_DispatchA2q.cfg'], ['MC_DispatchA1.cfg', 'MC_DispatchA.cfg']):
+    for cfg in ctx.pick(['MC_DispatchA1.cfg', 'MC_DispatchA2q.cfg', 'MC_DispatchA3r.cfg'],
+                        ['MC_DispatchA1.cfg', 'MC_DispatchA.cfg', 'MC_DispatchA3r.cfg']):
         ra = ctx.tlc('MC_Dispatch', cfg, workers=4, timeout=1200, count=False)
         cfgs2 = {digest([b['h'], b['sbs']]): b for b in ra.json}
         del ra
         for i, k in enumerate(sorted(cfgs2)):
             # quick, two-call export: the two stacks take turns (every configuration runs, on one stack)
-            stacks = (False, True) if cfg != 'MC_DispatchA2q.cfg' else ((i + ctx.seed) % 2 == 1,)
+            # (A3r: every 3-call history of sinks / static routes over a small pool, i.e. every re-registration A, B, A)
+            stacks = (False, True) if (cfg == 'MC_DispatchA1.cfg' or not ctx.quick) else ((i + ctx.seed) % 2 == 1,)
             replayed += replay_config(ctx, cfgs2[k], stacks, dirs)
         ncfg += len(cfgs2)
         ctx.progress('leg A (exhaustive tables, %s): %d configurations, %d requests replayed in total'
@@ -464,7 +481,7 @@ B_METHODS = list(HTTP_LIKE) + ['WEBSOCKET']
 
 def EV(op, **kw):
     e = {'op': op, 'ok': True, 'id': 0, 'tmpl': [], 'sfx': '', 'plain': [], 'sfxm': [], 'pat': [], 'prefix': [],
-         'fb': False, 'm': '', 'p': [],
+         'fb': False, 'sl': False, 'm': '', 'p': [],
          'obs': {'bad': False, 'status': 0, 'who': 'none', 'id': -1, 'meth': '', 'sfx': '', 'kw': [], 'hasAllow': False,
                  'allow': []}}
     e.update(kw)
@@ -477,6 +494,7 @@ def gen_scenario(rng):
     templates = []
     prefixes = []
     sinkpaths = []
+    sinkpats = []
     steps = []
     n_calls = 0
     budget = {'route': rng.randint(2, 12), 'sink': rng.randint(0, 6), 'static': rng.randint(0, 3)}
@@ -549,6 +567,41 @@ def gen_scenario(rng):
             return rng.choice(('WEBSOCKET', 'FOO', 'BREW'))
         return rng.choice(B_METHODS[:-1])
 
+    # re-registration: A, an overlapping B, A again (sinks and static routes), probed right away
+    if rng.random() < 0.5:
+        base = rng.choice(('/files', '/a', '/a/b', '/x1'))
+        pat = [{'k': 'lit', 's': cps(base)}]
+        if rng.random() < 0.4:
+            pat += [{'k': 'lit', 's': cps('/')}, {'k': rng.choice(('digits', 'seg')), 's': cps('g1')}]
+        between = rng.choice(('/', base[:2], base))
+        probes = [base + '/1', base + '/x', base, base + '/22/a']
+        for k, pt in enumerate((pat, [{'k': 'lit', 's': cps(between)}], pat)):
+            n_calls += 1
+            steps.append(EV('sink', id=n_calls, pat=pt))
+            if k == 1 and rng.random() < 0.5:
+                n_calls += 1
+                steps.append(EV('static', id=n_calls, prefix=cps(base), fb=rng.random() < 0.5, sl=rng.random() < 0.5))
+                prefixes.append(base)
+            for q in rng.sample(probes, 2):
+                steps.append(('req', rng.choice(('GET', 'POST', 'OPTIONS')), q))
+        sinkpats.append((pat, base + '/1'))
+        sinkpaths.extend(probes)
+    if rng.random() < 0.5:
+        pre = rng.choice(('/site', '/a', '/a/b', '/c/ab'))
+        probes = [pre, pre + '/', pre + '/a', pre + '/b/c', pre + 'x']
+        for k in range(3):
+            n_calls += 1
+            if k == 1:
+                if rng.random() < 0.5:
+                    steps.append(EV('sink', id=n_calls, pat=[{'k': 'lit', 's': cps(rng.choice(('/', pre[:2], pre)))}]))
+                else:
+                    steps.append(EV('static', id=n_calls, prefix=cps(pre.rsplit('/', 1)[0] or '/c'), fb=rng.random() < 0.5,
+                                    sl=rng.random() < 0.5))
+            else:
+                steps.append(EV('static', id=n_calls, prefix=cps(pre), fb=rng.random() < 0.6, sl=rng.random() < 0.5))
+            for q in rng.sample(probes, 2):
+                steps.append(('req', rng.choice(('GET', 'HEAD', 'OPTIONS')), q))
+        prefixes.append(pre)
     total = sum(budget.values())
     for _ in range(total):
         kinds = [k for k, v in budget.items() if v > 0]
@@ -595,6 +648,14 @@ def gen_scenario(rng):
                     lit = '/' + rng.choice(LITS)
                     pat.append({'k': 'lit', 's': cps(lit)})
                     example += lit
+                if rng.random() < 0.3:
+                    # a named group inside an optional (non-)capturing group: arrives as None when it takes no part
+                    g += 1
+                    okind = rng.choice(('optndig', 'optnseg', 'optcdig', 'optcseg'))
+                    lit = rng.choice(('/', '/v', '/a/'))
+                    pat.append({'k': okind, 's': cps('%s|o%d' % (lit, g))})
+                    sinkpaths.append(example + lit + (rng.choice(('2', '17')) if okind.endswith('dig') else rng.choice(LITS)))
+                    sinkpaths.append(example + lit + rng.choice(('2', 'b')) + '/a')
             # an optional unnamed trailing group: takes part for some paths only
             r = rng.random()
             if r < 0.15:
@@ -605,12 +666,17 @@ def gen_scenario(rng):
                 pat.append({'k': 'optlit', 's': cps(opt)})
                 sinkpaths.append(example + opt)
                 sinkpaths.append(example + opt + '/a')
+            if sinkpats and rng.random() < 0.3:
+                pat, example = rng.choice(sinkpats)        # an equal prefix registered again: the new sink is the newest
+            sinkpats.append((pat, example))
             steps.append(EV('sink', id=n_calls, pat=pat))
             sinkpaths.append(example)
             sinkpaths.append(example + rng.choice(('', '/', '/a', 'b', '7')))
         else:
             pre = '/' + '/'.join(rng.choice(LITS) for _ in range(rng.choice((1, 1, 2))))
-            steps.append(EV('static', id=n_calls, prefix=cps(pre), fb=rng.random() < 0.4))
+            if prefixes and rng.random() < 0.3:
+                pre = rng.choice(prefixes)                 # the same prefix again (either spelling)
+            steps.append(EV('static', id=n_calls, prefix=cps(pre), fb=rng.random() < 0.5, sl=rng.random() < 0.4))
             prefixes.append(pre)
         for _ in range(rng.choice((0, 1, 2, 3, 6))):
             steps.append(('req', gen_method(), gen_path()))
@@ -619,9 +685,9 @@ def gen_scenario(rng):
     return {'sbs': rng.random() < 0.5, 'steps': steps}
 
 
-def run_scenario(sc, asgi, dirs):
+def run_scenario(sc, asgi, dirs, compiled=0):
     """drive one scenario on a real app; returns the trace for DispatchTrace"""
-    b = Built(asgi, sc['sbs'], dirs)
+    b = Built(asgi, sc['sbs'], dirs, compiled=compiled)
     evs = []
     pending = []
 
@@ -631,7 +697,8 @@ def run_scenario(sc, asgi, dirs):
             for (m, p), o in zip(pending, obs):
                 evs.append(EV('req', m=m, p=cps(p), obs={
                     'bad': bool(o['problem']), 'status': o['status'], 'who': o['who'], 'id': o['id'], 'meth': o['meth'],
-                    'sfx': o['sfx'], 'kw': [{'n': cps(k), 'v': cps(v)} for k, v in sorted(o['kw'].items())],
+                    'sfx': o['sfx'], 'kw': [{'n': cps(k), 'v': NONE if v is None else cps(v)}
+                                            for k, v in sorted(o['kw'].items())],
                     'hasAllow': o['hasAllow'], 'allow': o['allow']}))
                 evs[-1]['problem'] = o['problem']
             del pending[:]
@@ -656,7 +723,7 @@ def leg_b(ctx, dirs):
     for i in range(nsc):
         sc = gen_scenario(ctx.rng)
         for asgi in (False, True):
-            tr = run_scenario(sc, asgi, dirs)
+            tr = run_scenario(sc, asgi, dirs, compiled=(i + asgi) % 3)
             kinds = set()
             for e in tr['ev']:
                 if e['op'] != 'req':
@@ -680,7 +747,7 @@ def leg_b(ctx, dirs):
             continue
         clause, at = v.split('@')
         ev = tr['ev'][int(at) - 1] if 0 < int(at) <= len(tr['ev']) else None
-        case = {'asgi': asgi, 'sbs': tr['sbs'], 'trace': {'sbs': tr['sbs'], 'ev': tr['ev'][:int(at)]}}
+        case = {'asgi': asgi, 'sbs': tr['sbs'], 'compiled': (i + asgi) % 3, 'trace': {'sbs': tr['sbs'], 'ev': tr['ev'][:int(at)]}}
         what = 'trace of a random %s app rejected by DispatchTrace at event %s: %s %s observed %r %s' % (
             'ASGI' if asgi else 'WSGI', at, ev and ev['m'], ev and text(ev['p']), ev and ev['obs'],
             ev.get('problem', '') if ev else '')
@@ -700,7 +767,7 @@ def replay(ctx, case):
         if 'trace' in case:
             sc = {'sbs': case['sbs'], 'steps': [e if e['op'] != 'req' else ('req', e['m'], text(e['p']))
                                                 for e in case['trace']['ev']]}
-            tr = run_scenario(sc, case['asgi'], dirs)
+            tr = run_scenario(sc, case['asgi'], dirs, compiled=case.get('compiled', 0))
             print('last event:', tr['ev'][-1])
             v = ctx.judge('DispatchTrace', [tr], workers=1)[0]
             print('verdict:', v)
@@ -708,7 +775,7 @@ def replay(ctx, case):
                 ctx.violation(v.split('@')[0], case, 'trace rejected at %s' % v)
             return
         for asgi in ([case['asgi']] if 'asgi' in case else [False, True]):
-            b = Built(asgi, case['sbs'], dirs)
+            b = Built(asgi, case['sbs'], dirs, compiled=case.get('compiled', 0))
             for c in case['h']:
                 print('assembly', c['op'], b.call(c))
             o = run_requests(b, [(case['m'], case['p'])])[0]
